@@ -87,3 +87,5 @@ open Csproto
 #print axioms Csproto.Bridge.PackedFuncs.DecodePackedSint32_refines
 #print axioms Csproto.Bridge.PackedFuncs.loop_eqU
 #print axioms Csproto.Bridge.PackedFuncs.DecodePackedUint32_refines
+#print axioms Csproto.Bridge.PackedFuncs.loop_eqJ
+#print axioms Csproto.Bridge.PackedFuncs.DecodePackedInt32_refines
